@@ -226,6 +226,10 @@ fn itermut_zst(al: i128, nrows: usize, ncols: usize, order: i128, axis: i128, sc
     }
 }
 
+fn text(s: &str) -> String {
+    format!("S:{}", s.chars().map(|c| (c as u32).to_string()).collect::<Vec<_>>().join("."))
+}
+
 pub fn run_k(toks: &[&str]) -> String {
     let name = toks[0];
     let a: Vec<i128> = toks[1..].iter().map(|t| t.parse().expect("integer")).collect();
@@ -253,6 +257,9 @@ pub fn run_k(toks: &[&str]) -> String {
             _ => "INVALID".to_string(),
         },
         "mul_like" => with_type!(a[0], T => mul_like_k0::<T>(u(1), u(2), a[3], a[4])),
+        "autotraits" => text(&crate::traits::autotraits()),
+        "scalar_forms" => text(&crate::scalar::scalar_forms(a[0], a[1])),
+        "scalar_neg" => text(&crate::scalar::scalar_neg(a[0])),
         "itermut_zst" => itermut_zst(a[0], u(1), u(2), a[3], a[4], &a[5..]),
         "from_wrapping" => {
             let (mj, mn) = matreex::verif_hooks::from_wrapping_index(a[0] as isize, a[1] as isize, ord(a[2]), u(3), u(4));
